@@ -11,7 +11,7 @@ import (
 
 // C08.jq: the jq/Go glue of tovalue: what `v | tovalue` converts and with which options.
 func (c *c08ctx) ruleJQ() {
-	ru := c.r.Rule("C08.jq", "tovalue is _tovalue of the input with the effective options (tovalue/0: defaults), toactual/tosym convert ._actual/._sym with the caller's options, the built-in default of skip_gaps is false (tovalue must not drop fields that keys/length show), and the Go function registered as _tovalue converts its input with the options built from its argument", 6)
+	ru := c.r.Rule("C08.jq", "tovalue is _tovalue of the input with the effective options (tovalue/0: defaults), toactual/tosym convert ._actual/._sym with the caller's options, the built-in default of skip_gaps is false (tovalue must not drop fields that keys/length show), and the Go function registered as _tovalue converts its input with the options built from its argument and returns the converted value exactly when the conversion succeeded; toactual/0 and tosym/0 are their own one-argument forms with empty options", 8)
 	jq, err := fw.LoadJQ(c.p.Repo)
 	if err != nil {
 		ru.Undecided("load", "", "bundled jq sources do not parse: "+err.Error())
@@ -79,6 +79,18 @@ func (c *c08ctx) ruleJQ() {
 		}
 		ru.Check(len(msgs) == 0, key, d.File.Rel, w.field+" | tovalue($opts)", strings.Join(msgs, "; "))
 	}
+	// toactual/0, tosym/0: the one-argument form of the same name with empty options
+	for _, name := range []string{"toactual", "tosym"} {
+		key := name + "/0"
+		d := find(name, 0)
+		if d == nil {
+			ru.Undecided(key, "", "exactly one top-level def "+name+"/0 expected in pkg/interp/*.jq")
+			continue
+		}
+		call := fw.JQIsCall(d.Def.Body, name, 1)
+		ru.Check(call != nil && fw.JQStr(call.Args[0]) == "{}", key, d.File.Rel, name+"({})",
+			"body is `"+fw.JQStr(d.Def.Body)+"`, not "+name+"({}): the value of the wrong kind (or with other options) is converted")
+	}
 	// default of skip_gaps in the fixed defaults object(s): every literal `skip_gaps: <const>` that is a
 	// boolean must be false
 	nDefault := 0
@@ -128,6 +140,8 @@ func (c *c08ctx) ruleJQ() {
 	e := c.env(reg)
 	var msgs []string
 	found := false
+	conv := ""
+	var convBlock *ssa.BasicBlock
 	for _, call := range fw.CallsIn(reg) {
 		callee := call.Common().StaticCallee()
 		if callee == nil || pkgRel(callee) != "pkg/interp" || len(call.Common().Args) != 2 {
@@ -140,6 +154,7 @@ func (c *c08ctx) ruleJQ() {
 		// callee must be the options-aware deep conversion (checked by C08.tovalue): it hands its
 		// first parameter to the converters
 		found = true
+		conv, convBlock = e.Term(call.Value()), call.Block()
 		if got := e.Term(call.Common().Args[1]); got != "arg0" {
 			msgs = append(msgs, "converts "+got+" instead of its input")
 		}
@@ -154,6 +169,30 @@ func (c *c08ctx) ruleJQ() {
 	}
 	if !found {
 		msgs = append(msgs, "does not call the options-aware conversion with an options closure")
+	}
+	// the converted value is what comes out exactly when the conversion did not fail
+	if conv != "" {
+		optErr := "call pkg/interp.OptionsFromValue(arg1)#1"
+		if !fw.ReachAvoiding(reg.Blocks[0], func(cd fw.Cond) bool { x, nn, ok := nilTest(e, cd); return ok && x == optErr && nn }, nil)[convBlock] {
+			msgs = append(msgs, "the conversion is reached only when building the options failed: with valid options nothing is converted")
+		}
+		nVal := 0
+		for _, rc := range fw.ReturnCases(reg, 0) {
+			t := e.Term(rc.Val)
+			isNil := func(cd fw.Cond) bool { x, nn, ok := nilTest(e, cd); return ok && x == conv+"#1" && !nn }
+			nonNil := func(cd fw.Cond) bool { x, nn, ok := nilTest(e, cd); return ok && x == conv+"#1" && nn }
+			if t == conv+"#0" {
+				nVal++
+				if fw.CaseReachable(reg, rc, isNil) {
+					msgs = append(msgs, "the converted value is returned on a path where the conversion's error was not seen to be nil")
+				}
+			} else if convBlock != nil && convBlock.Dominates(rc.Block) && fw.CaseReachable(reg, rc, nonNil) {
+				msgs = append(msgs, "returns "+t+" instead of the converted value although the conversion succeeded")
+			}
+		}
+		if nVal == 0 {
+			msgs = append(msgs, "never returns the converted value")
+		}
 	}
 	ru.Check(len(msgs) == 0, "_tovalue", c.pos(reg), "input converted with OptionsFromValue(arg)", strings.Join(uniq(msgs), "; "))
 }
